@@ -213,12 +213,49 @@ impl<K: CacheKey + 'static> MemoryCache<K> {
 
         let evict_count = current_entries - target_entries;
 
+        self.evict_by_policy(evict_count);
+    }
+
+    /// Evict `count` entries chosen by the configured policy
+    fn evict_by_policy(&self, count: usize) {
         match &self.config.eviction_policy {
-            crate::traits::EvictionPolicy::Lru => self.evict_lru(evict_count),
-            crate::traits::EvictionPolicy::Lfu => self.evict_lfu(evict_count),
-            crate::traits::EvictionPolicy::Fifo => self.evict_fifo(evict_count),
-            crate::traits::EvictionPolicy::Random => self.evict_random(evict_count),
+            crate::traits::EvictionPolicy::Lru => self.evict_lru(count),
+            crate::traits::EvictionPolicy::Lfu => self.evict_lfu(count),
+            crate::traits::EvictionPolicy::Fifo => self.evict_fifo(count),
+            crate::traits::EvictionPolicy::Random => self.evict_random(count),
             crate::traits::EvictionPolicy::Ttl => self.evict_expired(),
+        }
+    }
+
+    /// Evict entries until a value of `size_bytes` stored under `key` fits into
+    /// `max_memory_bytes`.
+    ///
+    /// `perform_eviction` is sized by the entry count only, so it frees nothing when
+    /// the byte budget is exhausted by a few large entries. The budget is enforced
+    /// here, independent of the entry count.
+    fn evict_for_bytes(&self, key: &K, size_bytes: usize) {
+        let Some(max_bytes) = self.config.max_memory_bytes else {
+            return;
+        };
+
+        loop {
+            let entries = self.entry_count.load(Ordering::Relaxed);
+            let usage = self.memory_usage.load(Ordering::Relaxed);
+            // Bytes of the entry this put replaces are released by the insert
+            let replaced = self.storage.get(key).map_or(0, |e| e.size_bytes as u64);
+            let needed = usage.saturating_sub(replaced) + size_bytes as u64;
+
+            if needed <= max_bytes as u64 || entries == 0 {
+                return;
+            }
+
+            // Evict in steps of 10% of the entries (at least one), like the count path
+            self.evict_by_policy((entries / 10).max(1));
+
+            if self.entry_count.load(Ordering::Relaxed) >= entries {
+                // Nothing evictable (e.g. TTL policy without expired entries)
+                return;
+            }
         }
     }
 
@@ -430,11 +467,30 @@ impl<K: CacheKey + 'static> AsyncCache<K> for MemoryCache<K> {
         let start_time = Instant::now();
         let size_bytes = value.len();
 
+        // A value larger than the whole byte budget can never be held within the
+        // limit. Do not cache it, and drop the value it would have replaced so that
+        // no stale data is served for this key.
+        if self
+            .config
+            .max_memory_bytes
+            .is_some_and(|max| size_bytes > max)
+        {
+            if let Some((_, old_entry)) = self.storage.remove(&key) {
+                self.entry_count.fetch_sub(1, Ordering::Relaxed);
+                self.memory_usage
+                    .fetch_sub(old_entry.size_bytes as u64, Ordering::Relaxed);
+            }
+            return Ok(());
+        }
+
         // Check capacity and evict if necessary
         vp_sched!("mem.put.check");
         if self.needs_eviction() {
             self.perform_eviction();
         }
+
+        // Make room in the byte budget for this value
+        self.evict_for_bytes(&key, size_bytes);
 
         let entry = Arc::new(MemoryCacheEntryInner::new(value, size_bytes, Some(ttl)));
 
@@ -661,6 +717,64 @@ mod tests {
         );
         // Note: Due to eviction timing, key2 might still be present
         // This is a simplified test of the eviction mechanism
+    }
+
+    #[tokio::test]
+    async fn test_memory_cache_byte_budget_is_enforced() {
+        // Byte budget exhausted long before the entry limit
+        let config = MemoryCacheConfig::new()
+            .with_max_entries(1000)
+            .with_max_memory(1000)
+            .with_eviction_policy(EvictionPolicy::Fifo);
+        let cache = MemoryCache::new(config).expect("Test operation should succeed");
+
+        for i in 0..100 {
+            let key = RibbitKey::new(format!("key{i}"), "us");
+            cache
+                .put(key, Bytes::from(vec![0u8; 100]))
+                .await
+                .expect("Test operation should succeed");
+
+            let stats = cache.stats().await.expect("Test operation should succeed");
+            assert!(stats.memory_usage_bytes <= 1000);
+        }
+
+        // The most recent entry is still there
+        let last = RibbitKey::new("key99", "us");
+        assert!(
+            cache
+                .get(&last)
+                .await
+                .expect("Test operation should succeed")
+                .is_some()
+        );
+    }
+
+    #[tokio::test]
+    async fn test_memory_cache_oversized_value_is_not_cached() {
+        let config = MemoryCacheConfig::new()
+            .with_max_entries(1000)
+            .with_max_memory(150);
+        let cache = MemoryCache::new(config).expect("Test operation should succeed");
+        let key = RibbitKey::new("big", "us");
+
+        cache
+            .put(key.clone(), Bytes::from(vec![1u8; 100]))
+            .await
+            .expect("Test operation should succeed");
+        cache
+            .put(key.clone(), Bytes::from(vec![2u8; 151]))
+            .await
+            .expect("Test operation should succeed");
+
+        // Neither the oversized value nor the stale one it replaced is served
+        assert_eq!(
+            cache.get(&key).await.expect("Operation should succeed"),
+            None
+        );
+        assert_eq!(cache.size().await.expect("Operation should succeed"), 0);
+        let stats = cache.stats().await.expect("Test operation should succeed");
+        assert_eq!(stats.memory_usage_bytes, 0);
     }
 
     #[tokio::test]
